@@ -1,4 +1,4 @@
--- PINNED by bin/pin_tables: copy of Gen/Dispatch.lean as generated from /repo at c8ef102 — regenerate, do not edit
+-- PINNED by bin/pin_tables: copy of Gen/Dispatch.lean as generated from /repo at 60f4c53 — regenerate, do not edit
 namespace Ggql.Pinned
 def dispatchOrder : List String := ["resolver", "any", "reflect"]
 def opFallbackAnyName : Bool := false
@@ -9,6 +9,7 @@ def dupScalarDropped : Bool := false
 def dirArgWrapperAccepted : Bool := false
 def descRaw : Bool := false
 def assureOnce : Bool := false
+def dupMembersAccepted : Bool := false
 def inputNullTakesDefault : Bool := false
 def dirLoopByVisited : Bool := false
 def typeLookupFindsDirectives : Bool := false
